@@ -63,6 +63,10 @@ def main():
     ap.add_argument("--no-tests", action="store_true")
     ap.add_argument("--seeds", default="1,7")
     ap.add_argument("--keep", action="store_true")
+    ap.add_argument("--demo", default=None, help="pytest file that must fail on the mutant and pass on the clean tree")
+    ap.add_argument("--save", default=None, help="seeded/<name>: store patch, demo, meta.json when everything is confirmed")
+    ap.add_argument("--needs", default="", help="what the change needs to manifest (for meta.json)")
+    ap.add_argument("--property", default="")
     a = ap.parse_args()
     scratch = tempfile.mkdtemp(prefix="bvmut-", dir="/dev/shm" if os.path.isdir("/dev/shm") else None)
     ok = True
@@ -87,6 +91,28 @@ def main():
                 print(f"SUITE-KILLS-MUTANT: {len(missing)} baseline tests no longer pass, e.g. {missing[:5]}")
             else:
                 print("suite: all baseline-passing tests still pass")
+        demo_result = None
+        if a.demo:
+            def run_demo(tree):
+                env = dict(os.environ, PYTHONPATH=os.path.join(tree, "src"), PYTHONDONTWRITEBYTECODE="1")
+                env.pop("BUMPVER_SRC", None)
+                q = sp.run(["/venv/bin/python", "-m", "pytest", "-q", "-p", "no:cacheprovider", "-x", os.path.abspath(a.demo)],
+                           cwd=tempfile.gettempdir(), env=env, stdout=sp.PIPE, stderr=sp.STDOUT, text=True)
+                return q.returncode
+            clean = tempfile.mkdtemp(prefix="bvmut-clean-", dir="/dev/shm")
+            try:
+                sp.run("git -C /repo archive HEAD | tar -x -C " + clean, shell=True, check=True)
+                if diff.strip():
+                    sp.run(["patch", "-p1", "-s", "-d", clean], input=diff, check=True)
+                rc_clean = run_demo(clean)
+            finally:
+                shutil.rmtree(clean, ignore_errors=True)
+            rc_mut = run_demo(scratch)
+            demo_result = {"clean_tree_rc": rc_clean, "mutant_rc": rc_mut}
+            print(f"demo: clean tree rc={rc_clean} (want 0), mutant rc={rc_mut} (want != 0)")
+            if rc_clean != 0 or rc_mut == 0:
+                ok = False
+        detected = {}
         for cid in [c for c in a.checks.split(",") if c]:
             for seed in a.seeds.split(","):
                 env = dict(os.environ, BUMPVER_SRC=os.path.join(scratch, "src"), VERIF_SEED=seed)
@@ -94,6 +120,7 @@ def main():
                 viol = [l for l in p.stdout.splitlines() if l.startswith("VIOLATION")]
                 sigs = [l.strip() for l in p.stdout.splitlines() if l.startswith("  violation ")]
                 status = "DETECTED" if (p.returncode == 1 and viol) else ("HARNESS-ERROR" if p.returncode == 2 else "MISSED")
+                detected.setdefault(cid, []).append({"seed": seed, "status": status, "signatures": [x.split(":", 1)[0].replace("violation ", "").strip() + ":" + x.split(":", 2)[1] if x.count(":") > 1 else x for x in sigs[:8]]})
                 if status != "DETECTED":
                     ok = False
                 print(f"{cid} seed={seed}: {status} exit={p.returncode} {len(viol)} violation(s)")
@@ -101,6 +128,26 @@ def main():
                     print("   ", s[:220])
                 if status == "HARNESS-ERROR":
                     print(p.stdout[-1500:])
+        if a.save:
+            dst = os.path.join(ROOT, "seeded", a.save)
+            os.makedirs(dst, exist_ok=True)
+            shutil.copy(a.patch, os.path.join(dst, "patch.diff"))
+            if a.demo:
+                shutil.copy(a.demo, os.path.join(dst, os.path.basename(a.demo)))
+            note = os.path.join(os.path.dirname(os.path.abspath(a.patch)), "note.md")
+            if os.path.exists(note):
+                shutil.copy(note, os.path.join(dst, "note.md"))
+            meta = {
+                "property": a.property or a.checks,
+                "needs_to_manifest": a.needs,
+                "suite": "pinned suite run in a scratch copy with PYTHONPATH=<copy>/src: every test that passes on the clean tree still passes" if not a.no_tests else "not run",
+                "demo": demo_result,
+                "checks_run": detected,
+                "confirmed": ok,
+                "source": "independent sub-agent given only the property text" if "/tmp/out-" in os.path.abspath(a.patch) else "written by hand",
+            }
+            json.dump(meta, open(os.path.join(dst, "meta.json"), "w"), indent=1)
+            print("saved", dst)
     finally:
         if not a.keep:
             shutil.rmtree(scratch, ignore_errors=True)
